@@ -139,6 +139,18 @@ class Runner(object):
             with open(os.path.join(d, name.decode("utf8")), "wb") as f:
                 f.write(files[cid])
         # os.listdir order is whatever the filesystem gives; the model is told that order
+        # decoys in the working directory: a DIRECTORY named like one of the pushed files, and a FILE named like another with
+        # different content -- anything resolved relative to the CWD instead of the pushed directory goes wrong (F2 and relatives)
+        names = [n for n, _ in dirs[fid]]
+        if names:
+            dn = os.path.join(self.cwd, names[0].decode("utf8"))
+            if not os.path.exists(dn):
+                os.mkdir(dn)
+            if len(names) > 1:
+                fn = os.path.join(self.cwd, names[1].decode("utf8"))
+                if not os.path.exists(fn):
+                    with open(fn, "wb") as f:
+                        f.write(b"decoy content from the working directory")
         if not hasattr(self, "listdir_order"):
             self.listdir_order = {}
         self.listdir_order[fid] = [n.encode("utf8") for n in os.listdir(d)]
